@@ -274,7 +274,11 @@ Proof.
   constructor; cbn.
   - eapply FreeOK_set_live; eauto.
   - eapply EdgeOK_ext; [|eauto]. apply set_live_nrel with (nd := nd); auto.
-  - apply ExOK_export with (ns := nodes s) (nd := nd) (nd' := nd'); auto. eapply upd_set_live; eauto.
+  - unfold exports_renamed. rewrite get_node_getn, G.
+    destruct (exports_renamed_spec _ _ n nd X G) as (Sub & Keep & ND).
+    apply ExOK_export_sub with (ns := nodes s) (nd := nd) (nd' := nd') (ex := exports s); auto.
+    + eapply upd_set_live; eauto.
+    + intros Hin. apply Al. apply in_map_iff in Hin as [x [Ex Hx]]. apply in_map_iff. exists x. split; auto.
   - eapply ImOK_ext; [|eauto]. apply set_live_nrel with (nd := nd); auto using kclass_refl.
   - eapply DfOK_ext; [|eauto]. apply set_live_nrel with (nd := nd); auto using kclass_refl.
   - eapply PkgOK_drop; [|eauto]. apply set_live_nrel with (nd := nd); auto using kclass_refl.
